@@ -4,13 +4,14 @@ import Rbacx.Proofs.FileFS
   that collects all the facts the C16 theorems project out.
 -/
 set_option linter.unusedSimpArgs false
-namespace Rbacx
+namespace Rbacx.FileSrc
 
 /-- everything C16 says about one run `r` of a program whose complete output is `new` -/
-structure RunFacts (e : AWEnv) (fs0 : FS) (new : Content) (fault : Fault) (r : AWState × Outcome) : Prop where
+structure RunFacts (e : AWEnv) (fs0 : FS) (new : Content) (fault : Fault) (r : AWState × AWOutcome) : Prop where
   allOrNothing : fsGet r.1.fs e.target = fsGet fs0 e.target ∨ fsGet r.1.fs e.target = some ⟨new, e.now⟩
   noTemp : r.2 ≠ .crashed → fsGet r.1.fs e.tmp = none
   success : fault = .none → r.2 = .ok ∧ fsGet r.1.fs e.target = some ⟨new, e.now⟩
+  okNew : r.2 = .ok → fsGet r.1.fs e.target = some ⟨new, e.now⟩
   frame : ∀ q, e.tmp ≠ q → e.target ≠ q → fsGet r.1.fs q = fsGet fs0 q
   raisedOnly : r.2 = .raised → fault.isRaise = true
   crashedOnly : r.2 = .crashed → fault.isCrash = true
@@ -78,7 +79,7 @@ theorem run_tail (e : AWEnv) (fs0 : FS) (hne : e.tmp ≠ e.target) (idxs : List 
         have := ih ⟨fs, some (e.tmp, buf ++ e.data.getD i [])⟩ _ (.crashAfter n k) rfl hfs
         simp only [runSteps, execOp, Fault.pred, newContent]
         rw [List.append_assoc] at this
-        exact ⟨this.allOrNothing, this.noTemp, by simp, this.frame, by simpa [Fault.isRaise] using this.raisedOnly,
+        exact ⟨this.allOrNothing, this.noTemp, by simp, this.okNew, this.frame, by simpa [Fault.isRaise] using this.raisedOnly,
           by simp [Fault.isCrash]⟩
     | raiseAt n k =>
       cases n with
@@ -89,7 +90,7 @@ theorem run_tail (e : AWEnv) (fs0 : FS) (hne : e.tmp ≠ e.target) (idxs : List 
         have := ih ⟨fs, some (e.tmp, buf ++ e.data.getD i [])⟩ _ (.raiseAt n k) rfl hfs
         simp only [runSteps, execOp, Fault.pred, newContent]
         rw [List.append_assoc] at this
-        exact ⟨this.allOrNothing, this.noTemp, by simp, this.frame, by simp [Fault.isRaise],
+        exact ⟨this.allOrNothing, this.noTemp, by simp, this.okNew, this.frame, by simp [Fault.isRaise],
           by simpa [Fault.isCrash] using this.crashedOnly⟩
 
 theorem cleanup_body (idxs : List Nat) :
@@ -128,7 +129,7 @@ theorem run_canonical (e : AWEnv) (fs0 : FS) (hne : e.tmp ≠ e.target) (hfresh 
     · constructor <;> aw_close
     · have := key (.crashAfter n k)
       simp only [runSteps, execOp, Fault.pred, AWEnv.path, fsGet_createTemp, if_true, Option.isSome_some]
-      exact ⟨this.allOrNothing, this.noTemp, by simp, this.frame, by simpa [Fault.isRaise] using this.raisedOnly,
+      exact ⟨this.allOrNothing, this.noTemp, by simp, this.okNew, this.frame, by simpa [Fault.isRaise] using this.raisedOnly,
         by simp [Fault.isCrash]⟩
   | raiseAt n k =>
     rcases n with _ | _ | n
@@ -143,7 +144,7 @@ theorem run_canonical (e : AWEnv) (fs0 : FS) (hne : e.tmp ≠ e.target) (hfresh 
       constructor <;> aw_close
     · have := key (.raiseAt n k)
       simp only [runSteps, execOp, Fault.pred, AWEnv.path, fsGet_createTemp, if_true, Option.isSome_some]
-      exact ⟨this.allOrNothing, this.noTemp, by simp, this.frame, by simp [Fault.isRaise],
+      exact ⟨this.allOrNothing, this.noTemp, by simp, this.okNew, this.frame, by simp [Fault.isRaise],
         by simpa [Fault.isCrash] using this.crashedOnly⟩
 
-end Rbacx
+end Rbacx.FileSrc
